@@ -359,11 +359,19 @@ def case_polygon(mon: Monitor, rng: random.Random) -> None:
     if not cross and rng.random() < 0.5:
         # the same question through the GeoJSON export (another public entry point): the features are the tiles of the answer, named "ix,iy"
         gj, e_gj = call(gs.geojson, geopolygon=query)
+        if e_gj is not None:
+            # GeoJSON is lon/lat: a grid placed outside the area where its CRS can be converted to lon/lat (random origins reach 7.6e6 m north in Australian Albers) cannot be exported
+            b0 = poly_native.bounds
+            lo_, la_ = gen.transformer(gs.crs.proj.to_wkt(), "EPSG:4326").transform([b0[0] - 2 * tw, b0[2] + 2 * tw, b0[0] - 2 * tw, b0[2] + 2 * tw], [b0[1] - 2 * th, b0[1] - 2 * th, b0[3] + 2 * th, b0[3] + 2 * th])
+            if not (np.all(np.isfinite(lo_)) and np.all(np.isfinite(la_)) and np.all(np.abs(la_) < 88)):
+                mon.skip("GridSpec.geojson", "tiles outside the lon/lat range of the grid's CRS")
+                e_gj = "skip"
         try:
             got_gj = {tuple(int(v) for v in f["properties"]["idx"].split(",")) for f in gj["features"]} if e_gj is None else None
         except Exception as e_:  # noqa: BLE001
             got_gj, e_gj = None, e_
-        mon.check(got_gj is not None and must <= got_gj <= may, "GridSpec.geojson", lambda: {**desc, "poly": pts, "got": sorted(got_gj) if got_gj is not None else None, "missing": sorted(must - (got_gj or set())),
+        if e_gj != "skip":
+          mon.check(got_gj is not None and must <= got_gj <= may, "GridSpec.geojson", lambda: {**desc, "poly": pts, "got": sorted(got_gj) if got_gj is not None else None, "missing": sorted(must - (got_gj or set())),
                   "extra": sorted((got_gj or set()) - may), "exc": e_gj}, key="polygon-query", cls="same-crs" if shape_kind == "polygon" else "same-crs|" + shape_kind)
     mon.check(ok, "GridSpec.tiles_from_geopolygon", lambda: {**desc, "poly": pts, "got": sorted(got), "missing": sorted(must - got), "extra": sorted(got - may)},
               key="polygon-query", cls="cross-crs" if cross else ("same-crs" if shape_kind == "polygon" else "same-crs|" + shape_kind), sig=hsig("P", (ny, nx), rx, ry, ox, oy, fx, fy, repr(pts)), sample={**desc, "poly": pts, "got": sorted(got)})
